@@ -8,7 +8,7 @@ In == ndJsonDeserialize(IOEnv.TRACE_FILE)
 Plain(d, eqc, eqpost) == [name |-> d.name, hasval |-> d.hasval, val |-> d.val, case |-> 0, pre |-> <<>>, post |-> <<>>, eqpre |-> <<>>, eqpost |-> eqpost,
                   quote |-> d.quoted, quotable |-> d.quotable, unknown |-> FALSE, eq |-> eqc]
 Canon(c) == [dirs |-> [i \in 1..Len(c.dirs) |-> Plain(c.dirs[i], c.eq, c.eqpost)], sep |-> c.sep, gap |-> c.gap, dbl |-> 0, trail |-> FALSE, tail |-> c.tail,
-             fixed |-> c.fixed, caseskip |-> c.caseskip, bareunknown |-> c.bareunknown]
+             fixed |-> c.fixed, caseskip |-> c.caseskip, bareunknown |-> c.bareunknown, head |-> c.head, qnames |-> c.qnames]
 Acts(c) == Allowed(c.type) \cap {"name-case", "ows", "edge-ws", "eq-ws", "empty", "trail", "order", "quote", "unknown", "val-ws"}
 One(c) == UNION {{[path |-> <<x.lab>>, act |-> a, s |-> x.s] : x \in Act(a, Canon(c))} : a \in Acts(c)}
 Two(c) == UNION {UNION {{[path |-> <<x.path[1], y.lab>>, act |-> a, s |-> y.s] : y \in Act(a, x.s)} : a \in Acts(c) \ {x.act}} : x \in One(c)}
